@@ -525,9 +525,16 @@ impl<'a> GeneratorState<'a> {
         high_byte: bool,
         second_time: bool,
     ) -> Result<(ExprType, ExprType), Error> {
+        // Conditions and shift operands are evaluated as low bytes in the high byte pass too:
+        // what their constants fold to there says nothing about the carry that the low byte
+        // pass of this expression has left for its high byte
+        let low_byte_folded = self.low_byte_folded;
         let left = self.generate_expr(lhs, pos, high_byte, second_time)?;
         let borrowed = self.saved_y;
         let right = self.generate_expr(rhs, pos, high_byte, second_time)?;
+        if high_byte {
+            self.low_byte_folded = low_byte_folded;
+        }
         if self.saved_y && !borrowed && matches!(left, ExprType::Y | ExprType::AbsoluteY(_)) {
             return Err(self
                 .compiler_state
